@@ -93,7 +93,9 @@ var c10env *c10Env
 
 // application metadata under names that merely look like protocol headers: grpc-go reserves a fixed list of
 // grpc-* names and lets every other key travel through the metadata API
-var c10AppKeys = map[string]bool{"grpc-tenant": true, "grpc-retry-pushback-ms": true, "grpc-previous-rpc-attempts": true}
+var c10AppKeys = map[string]bool{"grpc-tenant": true, "grpc-retry-pushback-ms": true, "grpc-previous-rpc-attempts": true,
+	// names that only begin like hop-by-hop headers, and the bare tails of the grpc-* protocol names
+	"upgrade-insecure-requests": true, "connection-id": true, "keep-alive-budget": true, "status": true, "message": true, "timeout": true}
 
 func c10EncMap(m map[string][]string) string {
 	keys := make([]string, 0, len(m))
@@ -799,7 +801,8 @@ func c10Gen(o *out, r *rng, tier string) {
 		}
 	}
 	// ---- application metadata under grpc-* names that the protocol does not reserve ----
-	appMds := []map[string][]string{{"grpc-tenant": {"acme"}}, {"grpc-retry-pushback-ms": {"250"}, "x-a": {"v1"}}, {"grpc-previous-rpc-attempts": {"2"}}}
+	appMds := []map[string][]string{{"grpc-tenant": {"acme"}}, {"grpc-retry-pushback-ms": {"250"}, "x-a": {"v1"}}, {"grpc-previous-rpc-attempts": {"2"}},
+		{"upgrade-insecure-requests": {"1"}, "connection-id": {"c-17"}}, {"keep-alive-budget": {"3"}, "status": {"pending"}}, {"message": {"hello"}, "timeout": {"soon"}}}
 	for i, s := range []st{okst, fails[0], fails[3]} {
 		bops := R
 		if s.code == 0 {
@@ -812,6 +815,8 @@ func c10Gen(o *out, r *rng, tier string) {
 		}
 		emit("app-metadata-grpc-names", mk("bi", "grpc", cat(sends(2), C), cat(E, sends(i)), s, appMds[0], appMds[1], appMds[2]))
 		emit("app-metadata-grpc-names", mk("cs", "grpc", cat(sends(2), C), cat(E, bops[1:]), s, appMds[2], appMds[0], appMds[1]))
+		emit("app-metadata-grpc-names", mk("ss", "grpc", sends(1), cat(R, sends(i)), s, appMds[3], appMds[4], appMds[5]))
+		emit("app-metadata-grpc-names", mk("bi", "grpc", cat(sends(1), C), cat(E, sends(1)), s, appMds[5], appMds[3], appMds[4]))
 	}
 	// ---- replies larger than the front mux's receive limit (within its send limit) ----
 	big := func(n int) []c10Op { return []c10Op{{'s', strings.Repeat("r", n)}} }
